@@ -36,7 +36,7 @@ func c07Table() []GuardReq {
 	}
 	// storage proofs are checked against the root and size committed in the contract
 	fceSP := v1Elem("fileContractElement", "StorageProofs") + "#0.FileContract"
-	wid := "call (*consensus.MidState).storageProofWindowID(%MS%, {consensus.V1TransactionSupplement}, %T1%.StorageProofs[*].ParentID)#0"
+	wid := "call (consensus.MidState).storageProofWindowID(%MS%, {consensus.V1TransactionSupplement}, %T1%.StorageProofs[*].ParentID)#0"
 	li := "call (consensus.State).StorageProofLeafIndex(%ST%, " + fceSP + ".Filesize, " + wid + ", %T1%.StorageProofs[*].ParentID)"
 	r := req("v1-proof-root", VT, "call closure %ID%$%ID%("+li+", "+fceSP+".Filesize, call closure %ID%$%ID%("+li+", "+fceSP+".Filesize, %T1%.StorageProofs[*].Leaf), %T1%.StorageProofs[*].Proof)", opNE, fceSP+".FileMerkleRoot",
 		"a v1 storage proof must prove the leaf chosen by the chain-derived challenge (window ID, contract ID, committed size) under the root committed in the contract",
